@@ -29,27 +29,388 @@ def bump (mid : Nat) (con : Bool) (o : Observer) : Observer :=
 def ackOne (ep mid : Nat) (o : Observer) : Observer :=
   if o.endpoint == ep && o.mid == some mid then { o with unacked := 0, mid := none } else o
 
+/-! ### association-list helpers -/
+
+theorem keys_modifyRes (rs : List (String × Resource)) (p : String) (f : Resource → Resource) :
+    (modifyRes rs p f).map (·.1) = rs.map (·.1) := by
+  unfold modifyRes
+  rw [List.map_map]
+  apply List.map_congr_left
+  intro kv _
+  simp only [Function.comp]
+  split <;> rfl
+
+theorem find_modifyRes_self (rs : List (String × Resource)) (p : String) (f : Resource → Resource) :
+    (modifyRes rs p f).find? (fun kv => kv.1 == p) =
+      (rs.find? (fun kv => kv.1 == p)).map (fun kv => (kv.1, f kv.2)) := by
+  induction rs with
+  | nil => rfl
+  | cons kv rest ih =>
+    unfold modifyRes at ih ⊢
+    rw [List.map_cons, List.find?_cons, List.find?_cons]
+    by_cases hk : (kv.1 == p) = true
+    · simp [hk]
+    · have hk' : (kv.1 == p) = false := by simpa using hk
+      simp only [hk', Bool.false_eq_true, ↓reduceIte]
+      exact ih
+
+theorem find_modifyRes_ne (rs : List (String × Resource)) (p p' : String) (f : Resource → Resource)
+    (hne : p' ≠ p) :
+    (modifyRes rs p f).find? (fun kv => kv.1 == p') = rs.find? (fun kv => kv.1 == p') := by
+  induction rs with
+  | nil => rfl
+  | cons kv rest ih =>
+    unfold modifyRes at ih ⊢
+    rw [List.map_cons, List.find?_cons, List.find?_cons]
+    by_cases hk : (kv.1 == p) = true
+    · have : kv.1 = p := by simpa using hk
+      have h2 : (kv.1 == p') = false := by simp [this]; exact fun h => hne h.symm
+      simp [hk, h2]
+      simpa using ih
+    · have hk' : (kv.1 == p) = false := by simpa using hk
+      simp only [hk', Bool.false_eq_true, ↓reduceIte]
+      rw [ih]
+
+theorem forall_modifyRes (P : Resource → Prop) (rs : List (String × Resource)) (p : String)
+    (f : Resource → Resource) (h : ∀ kv ∈ rs, P kv.2) (hf : ∀ r, P r → P (f r)) :
+    ∀ kv ∈ modifyRes rs p f, P kv.2 := by
+  intro kv hkv
+  unfold modifyRes at hkv
+  rw [List.mem_map] at hkv
+  obtain ⟨kv0, h0, rfl⟩ := hkv
+  split
+  · exact hf _ (h _ h0)
+  · exact h _ h0
+
+theorem any_eq_find (rs : List (String × Resource)) (p : String) :
+    rs.any (fun kv => kv.1 == p) = (rs.find? (fun kv => kv.1 == p)).isSome := by
+  induction rs with
+  | nil => rfl
+  | cons kv rest ih =>
+    rw [List.any_cons, List.find?_cons]
+    by_cases hk : (kv.1 == p) = true
+    · simp [hk]
+    · have hk' : (kv.1 == p) = false := by simpa using hk
+      simp only [hk', Bool.false_or]; exact ih
+
+theorem any_false_not_mem (rs : List (String × Resource)) (p : String)
+    (h : rs.any (fun kv => kv.1 == p) = false) : p ∉ rs.map (·.1) := by
+  intro hm
+  rw [List.mem_map] at hm
+  obtain ⟨kv, hkv, rfl⟩ := hm
+  have : rs.any (fun kv' => kv'.1 == kv.1) = true := List.any_eq_true.mpr ⟨kv, hkv, by simp⟩
+  rw [this] at h
+  cases h
+
+
+/-! ### observer-list helpers -/
+
+/-- no element of `l` has endpoint `ep` -/
+theorem map_id_of_not_mem (l : List Observer) (ep : Nat) (g : Observer → Observer)
+    (h : ep ∉ l.map (·.endpoint)) :
+    l.map (fun x => if x.endpoint == ep then g x else x) = l := by
+  induction l with
+  | nil => rfl
+  | cons x xs ih =>
+    rw [List.map_cons, List.mem_cons, not_or] at h
+    have hx : (x.endpoint == ep) = false := by
+      simp only [beq_eq_false_iff_ne, ne_eq]; exact fun e => h.1 e.symm
+    rw [List.map_cons, ih h.2, hx]
+    rfl
+
+theorem any_false_of_not_mem (l : List Observer) (ep : Nat) (h : ep ∉ l.map (·.endpoint)) :
+    l.any (fun x => x.endpoint == ep) = false := by
+  rw [List.any_eq_false]
+  intro x hx hc
+  exact h (List.mem_map.mpr ⟨x, hx, by simpa using hc⟩)
+
+theorem not_mem_of_any_false (l : List Observer) (ep : Nat)
+    (h : l.any (fun x => x.endpoint == ep) = false) : ep ∉ l.map (·.endpoint) := by
+  intro hm
+  obtain ⟨x, hx, rfl⟩ := List.mem_map.mp hm
+  rw [List.any_eq_false] at h
+  exact h x hx (by simp)
+
+theorem replaceFirst_eq (l : List Observer) (ep : Nat) (o : Observer)
+    (hn : (l.map (·.endpoint)).Nodup) :
+    replaceFirst (fun x => x.endpoint == ep) o l =
+      if l.any (fun x => x.endpoint == ep) then
+        some (l.map (fun x => if x.endpoint == ep then o else x))
+      else none := by
+  induction l with
+  | nil => rfl
+  | cons x xs ih =>
+    rw [List.map_cons, List.nodup_cons] at hn
+    unfold replaceFirst
+    rw [List.any_cons, List.map_cons]
+    by_cases hx : (x.endpoint == ep) = true
+    · have hxe : x.endpoint = ep := by simpa using hx
+      have := map_id_of_not_mem xs ep (fun _ => o) (hxe ▸ hn.1)
+      simp only [hx, ↓reduceIte, Bool.true_or, this]
+    · have hx' : (x.endpoint == ep) = false := by simpa using hx
+      simp only [hx', Bool.false_eq_true, ↓reduceIte, Bool.false_or, ih hn.2]
+      split <;> rfl
+
+theorem regF_eq (r : Resource) (ep : Nat) (tok : Bytes) (hn : (r.observers.map (·.endpoint)).Nodup) :
+    (match replaceFirst (fun x => x.endpoint == ep) (fresh ep tok) r.observers with
+      | some l => { r with observers := l }
+      | none => { r with observers := r.observers ++ [fresh ep tok] }) =
+    { r with observers := regList r.observers ep tok } := by
+  rw [replaceFirst_eq _ _ _ hn]
+  unfold regList
+  by_cases ha : (r.observers.any fun x => x.endpoint == ep) = true
+  · simp only [ha, ↓reduceIte]
+  · simp only [ha, Bool.false_eq_true, ↓reduceIte]
+
+theorem regList_nodup (l : List Observer) (ep : Nat) (tok : Bytes)
+    (hn : (l.map (·.endpoint)).Nodup) : ((regList l ep tok).map (·.endpoint)).Nodup := by
+  unfold regList
+  split
+  · have : (l.map (fun o => if o.endpoint == ep then fresh ep tok else o)).map (·.endpoint) =
+        l.map (·.endpoint) := by
+      rw [List.map_map]
+      apply List.map_congr_left
+      intro o _
+      simp only [Function.comp]
+      split
+      · rename_i h; simp only [fresh]; exact (by simpa using h : o.endpoint = ep).symm
+      · rfl
+    rw [this]; exact hn
+  · rename_i h
+    have h' : l.any (fun o => o.endpoint == ep) = false := by simpa using h
+    have := not_mem_of_any_false l ep h'
+    rw [List.map_append, List.nodup_append]
+    refine ⟨hn, by simp, ?_⟩
+    intro a ha b hb
+    simp only [List.map_cons, List.map_nil, List.mem_singleton, fresh] at hb
+    subst hb
+    exact fun e => this (e ▸ ha)
+
+theorem removeFirst_eq (l : List Observer) (ep : Nat) (tok : Bytes)
+    (hn : (l.map (·.endpoint)).Nodup) :
+    removeFirst (fun x => x.endpoint == ep && x.token == tok) l =
+      l.filter (fun o => !(o.endpoint == ep && o.token == tok)) := by
+  induction l with
+  | nil => rfl
+  | cons x xs ih =>
+    rw [List.map_cons, List.nodup_cons] at hn
+    unfold removeFirst
+    rw [List.filter_cons]
+    by_cases hx : (x.endpoint == ep && x.token == tok) = true
+    · simp only [hx, ↓reduceIte, Bool.not_true, Bool.false_eq_true]
+      have hxe : x.endpoint = ep := by
+        simp only [Bool.and_eq_true, beq_iff_eq] at hx; exact hx.1
+      symm
+      rw [List.filter_eq_self]
+      intro a ha
+      have : a.endpoint ≠ ep := by
+        intro e
+        exact hn.1 (List.mem_map.mpr ⟨a, ha, by rw [e, hxe]⟩)
+      simp [this]
+    · have hx' : (x.endpoint == ep && x.token == tok) = false := by simpa using hx
+      simp only [hx', Bool.false_eq_true, ↓reduceIte, Bool.not_false, ih hn.2]
+
+theorem ackFirst_eq (l : List Observer) (ep mid : Nat)
+    (hn : (l.map (·.endpoint)).Nodup) :
+    ackFirst ep mid l = l.map (ackOne ep mid) := by
+  induction l with
+  | nil => rfl
+  | cons x xs ih =>
+    rw [List.map_cons, List.nodup_cons] at hn
+    unfold ackFirst
+    rw [List.map_cons]
+    by_cases hx : (x.mid == some mid && x.endpoint == ep) = true
+    · have hx2 : (x.endpoint == ep && x.mid == some mid) = true := by rw [Bool.and_comm]; exact hx
+      have hxe : x.endpoint = ep := by
+        simp only [Bool.and_eq_true, beq_iff_eq] at hx; exact hx.2
+      have : xs.map (ackOne ep mid) = xs := by
+        have h := map_id_of_not_mem xs ep (fun o => if o.mid == some mid then { o with unacked := 0, mid := none } else o) (hxe ▸ hn.1)
+        refine Eq.trans ?_ h
+        apply List.map_congr_left
+        intro a _
+        unfold ackOne
+        by_cases h1 : (a.endpoint == ep) = true <;> simp [h1]
+      rw [this]
+      simp only [hx, ↓reduceIte, ackOne, hx2]
+    · have hx' : (x.mid == some mid && x.endpoint == ep) = false := by simpa using hx
+      have hx2 : (x.endpoint == ep && x.mid == some mid) = false := by rw [Bool.and_comm]; exact hx'
+      simp only [hx', Bool.false_eq_true, ↓reduceIte, ih hn.2, ackOne, hx2]
+
+theorem ackOne_endpoint (ep mid : Nat) (o : Observer) : (ackOne ep mid o).endpoint = o.endpoint := by
+  unfold ackOne; split <;> rfl
+
+theorem map_ackOne_endpoints (l : List Observer) (ep mid : Nat) :
+    (l.map (ackOne ep mid)).map (·.endpoint) = l.map (·.endpoint) := by
+  rw [List.map_map]
+  apply List.map_congr_left
+  intro o _
+  exact ackOne_endpoint ep mid o
+
+theorem changed_nodup (l : List Observer) (mid : Nat) (con : Bool) (lim : Nat)
+    (hn : (l.map (·.endpoint)).Nodup) :
+    (((l.map (bump mid con)).filter (fun o => o.unacked ≤ lim)).map (·.endpoint)).Nodup := by
+  have h1 : (l.map (bump mid con)).map (·.endpoint) = l.map (·.endpoint) := by
+    rw [List.map_map]; rfl
+  have h2 := (List.filter_sublist (l := l.map (bump mid con)) (p := fun o => decide (o.unacked ≤ lim))).map (·.endpoint)
+  rw [h1] at h2
+  exact hn.sublist h2
+
+theorem filter_nodup (l : List Observer) (q : Observer → Bool)
+    (hn : (l.map (·.endpoint)).Nodup) : ((l.filter q).map (·.endpoint)).Nodup :=
+  hn.sublist ((List.filter_sublist (l := l) (p := q)).map (·.endpoint))
+
+/-! ### `upsertRes` -/
+
+theorem find_upsertRes_self (rs : List (String × Resource)) (p : String) (f : Resource → Resource) :
+    ((upsertRes rs p f).find? (fun kv => kv.1 == p)).map (·.2) =
+      some (f (((rs.find? (fun kv => kv.1 == p)).map (·.2)).getD { observers := [], sequence := 0 })) := by
+  unfold upsertRes
+  rw [any_eq_find]
+  cases hf : rs.find? (fun kv => kv.1 == p) with
+  | none =>
+    simp only [Option.isSome_none, Bool.false_eq_true, ↓reduceIte, Option.map_none, Option.getD_none]
+    rw [List.find?_append, hf]
+    simp
+  | some kv =>
+    simp only [Option.isSome_some, ↓reduceIte, Option.map_some, Option.getD_some]
+    rw [find_modifyRes_self, hf]
+    rfl
+
+theorem find_upsertRes_ne (rs : List (String × Resource)) (p p' : String) (f : Resource → Resource)
+    (hne : p' ≠ p) :
+    (upsertRes rs p f).find? (fun kv => kv.1 == p') = rs.find? (fun kv => kv.1 == p') := by
+  unfold upsertRes
+  split
+  · exact find_modifyRes_ne rs p p' f hne
+  · rw [List.find?_append]
+    have : (p == p') = false := by simp only [beq_eq_false_iff_ne, ne_eq]; exact fun e => hne e.symm
+    simp [this]
+
+theorem keys_upsertRes_nodup (rs : List (String × Resource)) (p : String) (f : Resource → Resource)
+    (hn : (rs.map (·.1)).Nodup) : ((upsertRes rs p f).map (·.1)).Nodup := by
+  unfold upsertRes
+  split
+  · rw [keys_modifyRes]; exact hn
+  · rename_i h
+    have h' : rs.any (fun kv => kv.1 == p) = false := Bool.eq_false_iff.mpr h
+    have hnm := any_false_not_mem rs p h'
+    rw [List.map_append, List.nodup_append]
+    refine ⟨hn, by simp, ?_⟩
+    intro a ha b hb
+    simp only [List.map_cons, List.map_nil, List.mem_singleton] at hb
+    subst hb
+    exact fun e => hnm (e ▸ ha)
+
+theorem forall_upsertRes (P : Resource → Prop) (rs : List (String × Resource)) (p : String)
+    (f : Resource → Resource) (h : ∀ kv ∈ rs, P kv.2) (hf : ∀ r, P r → P (f r))
+    (h0 : P { observers := [], sequence := 0 }) :
+    ∀ kv ∈ upsertRes rs p f, P kv.2 := by
+  unfold upsertRes
+  split
+  · exact forall_modifyRes P rs p f h hf
+  · intro kv hkv
+    rw [List.mem_append, List.mem_singleton] at hkv
+    rcases hkv with hkv | rfl
+    · exact h _ hkv
+    · exact hf _ h0
+
+/-! ### the invariant -/
+
 theorem inv_default : Inv Subject.default := by
-  sorry
+  refine ⟨List.nodup_nil, ?_⟩
+  intro kv hkv
+  cases hkv
+
+theorem register_eq (s : Subject) (ep : Nat) (path : String) (tok : Bytes) :
+    register s ep path tok = { s with resources := upsertRes s.resources path (fun r =>
+      match replaceFirst (fun x => x.endpoint == ep) (fresh ep tok) r.observers with
+      | some l => { r with observers := l }
+      | none => { r with observers := r.observers ++ [fresh ep tok] }) } := rfl
+
+theorem inv_mk (rs : List (String × Resource)) (l : Nat) (h1 : (rs.map (·.1)).Nodup)
+    (h2 : ∀ kv ∈ rs, (kv.2.observers.map (·.endpoint)).Nodup) : Inv { resources := rs, limit := l } :=
+  ⟨h1, h2⟩
 
 theorem step_inv (s : Subject) (op : Op) (h : Inv s) : Inv (step s op) := by
-  sorry
+  obtain ⟨hk, ho⟩ := h
+  cases op with
+  | reg ep p t =>
+    show Inv (register s ep p t)
+    rw [register_eq]
+    refine inv_mk _ _ (keys_upsertRes_nodup _ _ _ hk) ?_
+    apply forall_upsertRes (fun r => (r.observers.map (·.endpoint)).Nodup) _ _ _ ho
+    · intro r hr
+      rw [regF_eq r ep t hr]
+      exact regList_nodup _ _ _ hr
+    · exact List.nodup_nil
+  | dereg ep p t =>
+    show Inv (deregister s ep p t)
+    unfold deregister
+    refine inv_mk _ _ (by rw [keys_modifyRes]; exact hk) ?_
+    apply forall_modifyRes (fun r => (r.observers.map (·.endpoint)).Nodup) _ _ _ ho
+    intro r hr
+    simp only
+    rw [removeFirst_eq _ _ _ hr]
+    exact filter_nodup _ _ hr
+  | chg p m c =>
+    show Inv (resourceChanged s p m c)
+    unfold resourceChanged
+    refine inv_mk _ _ (by rw [keys_modifyRes]; exact hk) ?_
+    apply forall_modifyRes (fun r => (r.observers.map (·.endpoint)).Nodup) _ _ _ ho
+    intro r hr
+    exact changed_nodup r.observers m c s.limit hr
+  | ack ep m =>
+    show Inv (acknowledge s ep m)
+    unfold acknowledge
+    refine inv_mk _ _ (by rw [List.map_map]; exact hk) ?_
+    intro kv hkv
+    simp only [List.mem_map] at hkv
+    obtain ⟨kv0, hkv0, rfl⟩ := hkv
+    simp only
+    rw [ackFirst_eq _ _ _ (ho _ hkv0), map_ackOne_endpoints]
+    exact ho _ hkv0
+  | limit l => exact ⟨hk, ho⟩
 
-theorem inv_run (ops : List Op) : Inv (run ops) := by
-  sorry
+theorem inv_foldl (ops : List Op) : ∀ s, Inv s → Inv (ops.foldl step s) := by
+  induction ops with
+  | nil => intro s h; exact h
+  | cons op ops ih => intro s h; exact ih _ (step_inv s op h)
+
+theorem inv_run (ops : List Op) : Inv (run ops) := inv_foldl ops _ inv_default
+
+/-! ### per-operation specifications -/
 
 theorem register_spec (s : Subject) (h : Inv s) (ep : Nat) (path : String) (tok : Bytes) :
     (register s ep path tok).get path =
       some { sequence := ((s.get path).map (·.sequence)).getD 0,
              observers := regList (((s.get path).map (·.observers)).getD []) ep tok } ∧
     (register s ep path tok).limit = s.limit := by
-  sorry
+  refine ⟨?_, rfl⟩
+  rw [register_eq]
+  unfold Subject.get
+  simp only
+  rw [find_upsertRes_self]
+  cases hf : s.resources.find? (fun kv => kv.1 == path) with
+  | none =>
+    simp only [Option.map_none, Option.getD_none]
+    rw [regF_eq { observers := [], sequence := 0 } ep tok List.nodup_nil]
+  | some kv =>
+    simp only [Option.map_some, Option.getD_some]
+    rw [regF_eq _ ep tok (h.2 kv (List.mem_of_find?_eq_some hf))]
 
 theorem deregister_spec (s : Subject) (h : Inv s) (ep : Nat) (path : String) (tok : Bytes) :
     (deregister s ep path tok).get path =
       (s.get path).map (fun r => { r with observers := r.observers.filter (fun o => !(o.endpoint == ep && o.token == tok)) }) ∧
     (deregister s ep path tok).limit = s.limit := by
-  sorry
+  refine ⟨?_, rfl⟩
+  unfold deregister Subject.get
+  simp only
+  rw [find_modifyRes_self]
+  cases hf : s.resources.find? (fun kv => kv.1 == path) with
+  | none => rfl
+  | some kv =>
+    simp only [Option.map_some]
+    rw [removeFirst_eq _ _ _ (h.2 kv (List.mem_of_find?_eq_some hf))]
 
 theorem changed_spec (s : Subject) (h : Inv s) (path : String) (mid : Nat) (con : Bool) :
     (resourceChanged s path mid con).get path =
@@ -57,39 +418,210 @@ theorem changed_spec (s : Subject) (h : Inv s) (path : String) (mid : Nat) (con 
         { sequence := r.sequence + 1,
           observers := (r.observers.map (bump mid con)).filter (fun o => o.unacked ≤ s.limit) }) ∧
     (resourceChanged s path mid con).limit = s.limit := by
-  sorry
+  have _ := h
+  refine ⟨?_, rfl⟩
+  unfold resourceChanged Subject.get
+  simp only
+  rw [find_modifyRes_self]
+  cases hf : s.resources.find? (fun kv => kv.1 == path) with
+  | none => rfl
+  | some kv => rfl
 
 theorem acknowledge_spec (s : Subject) (h : Inv s) (ep mid : Nat) (path : String) :
     (acknowledge s ep mid).get path =
       (s.get path).map (fun r => { r with observers := r.observers.map (ackOne ep mid) }) ∧
     (acknowledge s ep mid).limit = s.limit := by
-  sorry
+  refine ⟨?_, rfl⟩
+  unfold acknowledge Subject.get
+  simp only
+  rw [List.find?_map]
+  cases hf : s.resources.find? (fun kv => kv.1 == path) with
+  | none =>
+    have : s.resources.find? ((fun kv : String × Resource => kv.1 == path) ∘ fun kv =>
+        (kv.1, { kv.2 with observers := ackFirst ep mid kv.2.observers })) = none := hf
+    rw [this]; rfl
+  | some kv =>
+    have : s.resources.find? ((fun kv : String × Resource => kv.1 == path) ∘ fun kv =>
+        (kv.1, { kv.2 with observers := ackFirst ep mid kv.2.observers })) = some kv := hf
+    rw [this]
+    simp only [Option.map_some]
+    rw [ackFirst_eq _ _ _ (h.2 kv (List.mem_of_find?_eq_some hf))]
 
 /-- operations on one resource never change another resource -/
 theorem frame (s : Subject) (p p' : String) (hne : p' ≠ p) (ep mid : Nat) (tok : Bytes) (con : Bool) :
     (register s ep p tok).get p' = s.get p' ∧
     (deregister s ep p tok).get p' = s.get p' ∧
     (resourceChanged s p mid con).get p' = s.get p' := by
-  sorry
+  refine ⟨?_, ?_, ?_⟩
+  · unfold register Subject.get
+    simp only
+    rw [find_upsertRes_ne _ _ _ _ hne]
+  · unfold deregister Subject.get
+    simp only
+    rw [find_modifyRes_ne _ _ _ _ hne]
+  · unfold resourceChanged Subject.get
+    simp only
+    rw [find_modifyRes_ne _ _ _ _ hne]
 
-theorem setLimit_frame (s : Subject) (l : Nat) (p : String) : (setLimit s l).get p = s.get p := by
-  sorry
+theorem setLimit_frame (s : Subject) (l : Nat) (p : String) : (setLimit s l).get p = s.get p := rfl
+
+theorem modifyRes_noop (rs : List (String × Resource)) (p : String) (f : Resource → Resource)
+    (h : rs.find? (fun kv => kv.1 == p) = none) : modifyRes rs p f = rs := by
+  unfold modifyRes
+  rw [List.find?_eq_none] at h
+  conv => rhs; rw [← List.map_id rs]
+  apply List.map_congr_left
+  intro kv hkv
+  have := h kv hkv
+  simp only [Bool.not_eq_true] at this
+  simp only [this, Bool.false_eq_true, ↓reduceIte, id]
 
 theorem changed_unobserved_noop (s : Subject) (path : String) (mid : Nat) (con : Bool)
     (h : s.get path = none) : resourceChanged s path mid con = s := by
-  sorry
+  unfold Subject.get at h
+  rw [Option.map_eq_none_iff] at h
+  unfold resourceChanged
+  rw [modifyRes_noop _ _ _ h]
+
+/-! ### counter bound -/
+
+/-- per-resource part of the counter invariant (carries the shape invariant) -/
+theorem regList_bound (l : List Observer) (ep : Nat) (tok : Bytes) (B : Nat)
+    (h : ∀ o ∈ l, o.unacked ≤ B) : ∀ o ∈ regList l ep tok, o.unacked ≤ B := by
+  intro o ho
+  unfold regList at ho
+  split at ho
+  · rw [List.mem_map] at ho
+    obtain ⟨x, hx, rfl⟩ := ho
+    split
+    · exact Nat.zero_le _
+    · exact h _ hx
+  · rw [List.mem_append, List.mem_singleton] at ho
+    rcases ho with ho | rfl
+    · exact h _ ho
+    · exact Nat.zero_le _
+
+theorem ackOne_bound (ep mid : Nat) (o : Observer) (B : Nat) (h : o.unacked ≤ B) :
+    (ackOne ep mid o).unacked ≤ B := by
+  unfold ackOne
+  split
+  · exact Nat.zero_le _
+  · exact h
+
+theorem bound_mk (rs : List (String × Resource)) (l : Nat) (h1 : l ≤ 255)
+    (h2 : ∀ kv ∈ rs, ∀ o ∈ kv.2.observers, o.unacked ≤ 255) :
+    (Subject.mk rs l).limit ≤ 255 ∧
+      ∀ kv ∈ (Subject.mk rs l).resources, ∀ o ∈ kv.2.observers, o.unacked ≤ 255 := ⟨h1, h2⟩
+
+/-- the strengthened invariant behind `unacked_le` -/
+theorem step_bound (s : Subject) (op : Op) (hi : Inv s) (hop : ∀ l, op = .limit l → l ≤ 255)
+    (hl : s.limit ≤ 255) (hb : ∀ kv ∈ s.resources, ∀ o ∈ kv.2.observers, o.unacked ≤ 255) :
+    (step s op).limit ≤ 255 ∧ ∀ kv ∈ (step s op).resources, ∀ o ∈ kv.2.observers, o.unacked ≤ 255 := by
+  have hP : ∀ kv ∈ s.resources, (fun r : Resource => (r.observers.map (·.endpoint)).Nodup ∧
+      ∀ o ∈ r.observers, o.unacked ≤ 255) kv.2 := fun kv hkv => ⟨hi.2 kv hkv, hb kv hkv⟩
+  cases op with
+  | reg ep p t =>
+    show (register s ep p t).limit ≤ 255 ∧ ∀ kv ∈ (register s ep p t).resources, _
+    rw [register_eq]
+    refine bound_mk _ _ hl ?_
+    intro kv hkv
+    refine (forall_upsertRes (fun r : Resource => (r.observers.map (·.endpoint)).Nodup ∧ ∀ o ∈ r.observers, o.unacked ≤ 255) _ _ _ hP ?_ ?_ kv hkv).2
+    · intro r hr
+      rw [regF_eq r ep t hr.1]
+      exact ⟨regList_nodup _ _ _ hr.1, regList_bound _ _ _ _ hr.2⟩
+    · exact ⟨List.nodup_nil, fun o ho => by cases ho⟩
+  | dereg ep p t =>
+    refine bound_mk _ _ hl ?_
+    intro kv hkv
+    refine (forall_modifyRes (fun r : Resource => (r.observers.map (·.endpoint)).Nodup ∧ ∀ o ∈ r.observers, o.unacked ≤ 255) _ _ _ hP ?_ kv hkv).2
+    intro r hr
+    simp only
+    rw [removeFirst_eq _ _ _ hr.1]
+    exact ⟨filter_nodup _ _ hr.1, fun o ho => hr.2 o (List.mem_filter.mp ho).1⟩
+  | chg p m c =>
+    refine bound_mk _ _ hl ?_
+    intro kv hkv
+    refine forall_modifyRes (fun r => ∀ o ∈ r.observers, o.unacked ≤ 255) _ _ _ hb ?_ kv hkv
+    intro r _ o ho
+    have := (List.mem_filter.mp ho).2
+    simp only [decide_eq_true_eq] at this
+    exact Nat.le_trans this hl
+  | ack ep m =>
+    refine ⟨hl, ?_⟩
+    intro kv hkv
+    change kv ∈ s.resources.map _ at hkv
+    rw [List.mem_map] at hkv
+    obtain ⟨kv0, hkv0, rfl⟩ := hkv
+    simp only
+    rw [ackFirst_eq _ _ _ (hi.2 _ hkv0)]
+    intro o ho
+    rw [List.mem_map] at ho
+    obtain ⟨x, hx, rfl⟩ := ho
+    exact ackOne_bound _ _ _ _ (hb _ hkv0 _ hx)
+  | limit l => exact ⟨hop l rfl, hb⟩
+
+theorem bound_foldl (ops : List Op) (hlo : LimitsOk ops) : ∀ s, Inv s → s.limit ≤ 255 →
+    (∀ kv ∈ s.resources, ∀ o ∈ kv.2.observers, o.unacked ≤ 255) →
+    (ops.foldl step s).limit ≤ 255 ∧
+      ∀ kv ∈ (ops.foldl step s).resources, ∀ o ∈ kv.2.observers, o.unacked ≤ 255 := by
+  induction ops with
+  | nil => intro s _ hl hb; exact ⟨hl, hb⟩
+  | cons op ops ih =>
+    intro s hi hl hb
+    have hs := step_bound s op hi (fun l e => hlo op (List.mem_cons_self ..) l e) hl hb
+    exact ih (fun op' h' => hlo op' (List.mem_cons_of_mem _ h')) _ (step_inv s op hi) hs.1 hs.2
 
 /-- counter bound: with u8 limits, no stored counter ever exceeds 255, so the
 increment in a notification round stays below 2^16 (the width of the counter) -/
 theorem unacked_le (ops : List Op) (hl : LimitsOk ops) :
     (run ops).limit ≤ 255 ∧ ∀ kv ∈ (run ops).resources, ∀ o ∈ kv.2.observers, o.unacked ≤ 255 := by
-  sorry
+  apply bound_foldl ops hl _ inv_default
+  · decide
+  · intro kv hkv; cases hkv
 
 /-- sequence numbers never decrease along a history, whatever the operation -/
 theorem sequence_mono (s : Subject) (op : Op) (p : String) (r : Resource) (h : Inv s)
     (hr : s.get p = some r) :
     ∃ r', (step s op).get p = some r' ∧ r.sequence ≤ r'.sequence := by
-  sorry
+  cases op with
+  | reg ep q t =>
+    show ∃ r', (register s ep q t).get p = some r' ∧ _
+    by_cases hq : p = q
+    · subst hq
+      rw [(register_spec s h ep p t).1, hr]
+      exact ⟨_, rfl, Nat.le_refl _⟩
+    · rw [(frame s q p hq ep 0 t false).1, hr]
+      exact ⟨_, rfl, Nat.le_refl _⟩
+  | dereg ep q t =>
+    show ∃ r', (deregister s ep q t).get p = some r' ∧ _
+    by_cases hq : p = q
+    · subst hq
+      rw [(deregister_spec s h ep p t).1, hr]
+      exact ⟨_, rfl, Nat.le_refl _⟩
+    · rw [(frame s q p hq ep 0 t false).2.1, hr]
+      exact ⟨_, rfl, Nat.le_refl _⟩
+  | chg q m c =>
+    show ∃ r', (resourceChanged s q m c).get p = some r' ∧ _
+    by_cases hq : p = q
+    · subst hq
+      rw [(changed_spec s h p m c).1, hr]
+      exact ⟨_, rfl, Nat.le_succ _⟩
+    · rw [(frame s q p hq 0 m [] c).2.2, hr]
+      exact ⟨_, rfl, Nat.le_refl _⟩
+  | ack ep m =>
+    show ∃ r', (acknowledge s ep m).get p = some r' ∧ _
+    rw [(acknowledge_spec s h ep m p).1, hr]
+    exact ⟨_, rfl, Nat.le_refl _⟩
+  | limit l => exact ⟨r, hr, Nat.le_refl _⟩
+
+/-! ### `create_notification` -/
+
+theorem notif_fin : ∀ (k : Fin 16), ∀ rt ∈ [MessageType.Confirmable, MessageType.NonConfirmable],
+    (0xF0 &&& UInt8.ofNat (k.val % 256) = 0) ∧
+    (let h : Header := { vtt := UInt8.ofNat (k.val % 256) |||
+        (0xF0 &&& ((Header.default.setVersion 1).setType rt).vtt), code := .Response .Content, mid := 0 }
+     h.getVersion = 1 ∧ h.getType = .ok rt ∧ h.getTkl.toNat = k.val) := by
+  decide +kernel
 
 theorem notification_spec (mid : Nat) (tok : Bytes) (seq : Nat) (payload : Bytes) (con : Bool)
     (ht : tok.length ≤ 15) (hs : seq < 2 ^ 32) :
@@ -100,6 +632,21 @@ theorem notification_spec (mid : Nat) (tok : Bytes) (seq : Nat) (payload : Bytes
       p.header.code = .Response .Content ∧ p.header.mid = mid ∧ p.token = tok ∧
       p.payload = payload ∧ p.options = [(6, [Spec.minimalBE seq])] ∧
       p.getObserveValue = some (.ok seq) := by
-  sorry
+  have hf := notif_fin ⟨tok.length, by omega⟩ (if con then .Confirmable else .NonConfirmable)
+    (by cases con <;> simp)
+  simp only at hf
+  obtain ⟨h0, hv, htb, htk⟩ := hf
+  have hseq : seq < 256 ^ 4 := by omega
+  unfold createNotification Packet.setToken Header.setTkl
+  simp only [h0, ne_eq, not_true_eq_false, ↓reduceIte]
+  unfold Packet.setObserveValue Packet.addOptionUint
+  rw [optionFromUint_eq seq 4 hseq]
+  refine ⟨_, rfl, hv, ?_, htk, rfl, rfl, rfl, rfl, rfl, ?_⟩
+  · exact htb
+  · show Packet.getFirstOptionUint _ _ 4 = _
+    unfold Packet.getFirstOptionUint Packet.getFirstOption
+    show Option.map (fun bs => optionToUint bs 4) (some (Spec.minimalBE seq)) = _
+    simp only [Option.map_some]
+    rw [optionToUint_eq, if_pos (minimalBE_length_le seq 4 hseq), beValue_minimalBE]
 
 end CoapLite.Observe
